@@ -1,8 +1,6 @@
 """C06: aperture keeps a partitioned, bounded, load-tracking active subset -- not claimed."""
 CLAIMED = False
-NA_REASON = ('Not claimed. The aperture balancer overrides the hooks _OnGet/_OnPut/_OnNodeDown with code that adds and removes heap members '
-             'inside __Get/__Put; that violates the hook contracts (positions unchanged, size not decreasing) under which __Get/__Put/_AsyncProcessRequestImpl '
-             'are verified for C03/C04, so the partition and bound clauses need those functions re-verified under a weaker hook contract plus contracts for '
-             '_TryExpandAperture/_ContractAperture/_AdjustAperture (an exponential moving average over a clock) and _Jitter -- not done. '
-             'The convergence sentence ("the per-member load settles inside the band or the size is pinned") is a limit/liveness statement over traffic histories '
+NA_REASON = ('Not claimed. In place: the hook contracts of _OnGet/_OnPut/_OnNodeDown were weakened to what an aperture adjustment can do and C03/C04 re-proved under them; _AddSink/_RemoveSink carry membership-delta postconditions. '
+             'Missing: contracts and proofs for the aperture\'s own functions (_AddSink/_RemoveSink overrides, _TryExpandAperture, _ContractAperture, _AdjustAperture with its moving average over a clock, the three hook overrides, _Jitter) '
+             'against the partition invariant and the bound clauses. The convergence sentence ("the per-member load settles inside the band or the size is pinned") is a limit statement over traffic histories '
              'that no pre/postcondition or invariant expresses; contract-based deductive verification does not apply to it. See DESIGN.md 9.6.')
